@@ -708,23 +708,84 @@ def validation_before_mutation(ctx, rel, rule, raising, method_names=("set_struc
     for q, f in s.funcs.items():
         if "." not in q or q.split(".")[-1] not in method_names:
             continue
-        stmts_ = list(f.body)
+        # the simple statements in the order they are written (the blocks of if / for / with / try opened up; the test / iterable /
+        # manager of a compound statement stands in front of its blocks)
+        def flat(block):
+            out = []
+            for st in block:
+                if isinstance(st, (ast.FunctionDef, ast.AsyncFunctionDef, ast.ClassDef)):
+                    continue
+                inner = [(fld, getattr(st, fld)) for fld in ("body", "orelse", "finalbody") if isinstance(getattr(st, fld, None), list) and getattr(st, fld)]
+                if not inner:
+                    out.append(st)
+                    continue
+                for e_ in [getattr(st, a_, None) for a_ in ("test", "iter")] + [i_.context_expr for i_ in getattr(st, "items", [])]:
+                    if e_ is not None:
+                        out.append(ast.copy_location(ast.Expr(value=e_), st))
+                for _, blk in inner:
+                    out.extend(flat(blk))
+                for h in getattr(st, "handlers", []) or []:
+                    out.extend(flat(h.body))
+            return out
+        stmts_ = flat(f.body)
+        # the names through which the object's own state is reached: self, its fields, and every local that may be one of them
+        # (`me = self`, `lines = self.lines`, `for lines in [self.lines]`) - the alias model, not the spelling `self.`
+        from . import alias as _alias
+        from .exprnorm import _inplace_written, _mutated_names
+        grp = _alias.groups(f)
+        own = {"self"} | {k_ for k_ in list(grp) + list(getattr(grp, "holds", {})) if k_.startswith("self.")}
+        own |= {x.value.id + "." + x.attr for x in ast.walk(f) if isinstance(x, ast.Attribute) and isinstance(x.value, ast.Name) and x.value.id == "self"}
+        self_like = set(_alias.closure_of(own, grp))
+
+        def base_of(t):
+            while isinstance(t, (ast.Subscript, ast.Attribute)):
+                t = t.value
+            return t.id if isinstance(t, ast.Name) else None
 
         def mutates(st):
+            """True: the statement changes the object's state in place; "aug": `x op= value` (the value is evaluated first);
+            "rebind": `self.x = value` (atomic: the value is evaluated first, then the field is replaced); False"""
+            kind = False
             for x in ast.walk(st):
-                if isinstance(x, ast.Delete) and any(isinstance(t, ast.Subscript) and ast.unparse(t).startswith("self.") for t in x.targets):
-                    return True
-                if isinstance(x, ast.AugAssign) and ast.unparse(x.target).startswith("self."):
+                if isinstance(x, (ast.Assign, ast.AnnAssign)):
+                    tg = x.targets if isinstance(x, ast.Assign) else [x.target]
+                    for t in tg:
+                        for y in ast.walk(t):
+                            if isinstance(y, ast.Attribute) and isinstance(y.ctx, ast.Store) and isinstance(y.value, ast.Name) and y.value.id in self_like \
+                                    and not (isinstance(x.value, ast.Constant) and x.value.value is None):
+                                kind = kind or "rebind"      # (`self._cache = None` resets what is recomputed on demand: no state is lost)
+            # stores and deletions through the name (wherever the target stands), augmented assignments, calls of the known
+            # in-place methods on it, and out= arguments (a method of the object's own class that is merely CALLED is not taken
+            # for a change: `self.subcomponent_class()`)
+            touched = set()
+            for x in ast.walk(st):
+                if isinstance(x, (ast.Subscript, ast.Attribute)) and isinstance(x.ctx, (ast.Store, ast.Del)):
+                    if not (isinstance(x, ast.Attribute) and isinstance(x.ctx, ast.Store) and isinstance(x.value, ast.Name) and x.value.id in self_like):
+                        touched |= _alias.written_through(x.value, grp)      # (`self.x = v` itself is the atomic case)
+                elif isinstance(x, ast.AugAssign):
+                    touched |= _alias.written_through(x.target, grp) if not isinstance(x.target, ast.Name) else _alias.closure_of({x.target.id}, grp)
+                elif isinstance(x, ast.Call) and isinstance(x.func, ast.Attribute) and x.func.attr in MUTATING_METHODS:
+                    touched |= _alias.written_through(x.func.value, grp)
+                if isinstance(x, ast.Call):
+                    from .exprnorm import _out_arguments
+                    for o_ in _out_arguments(x):
+                        touched |= _alias.written_through(o_, grp)
+            hit = touched & self_like
+            # (a field that is rebound is reported by its pseudo-name: that alone is the atomic case above)
+            rebound = {f"{y.value.id}.{y.attr}" for x in ast.walk(st) if isinstance(x, (ast.Assign, ast.AnnAssign))
+                       for t in (x.targets if isinstance(x, ast.Assign) else [x.target]) for y in [t]
+                       if isinstance(y, ast.Attribute) and isinstance(y.value, ast.Name)}
+            hit -= rebound
+            if hit:
+                if isinstance(st, ast.AugAssign) and base_of(st.target) in self_like | {"self"}:
                     return "aug"
-                if isinstance(x, ast.Assign) and any(isinstance(t, ast.Subscript) and ast.unparse(t).startswith("self.") for t in x.targets):
-                    return True
-                if isinstance(x, ast.Expr) and isinstance(x.value, ast.Call) and isinstance(x.value.func, ast.Attribute) \
-                        and x.value.func.attr in MUTATING_METHODS and ast.unparse(x.value.func.value).startswith("self."):
-                    return True
-            return False
+                return True
+            return kind
 
         def may_refuse(node):
-            return [c for c in ast.walk(node) if isinstance(c, ast.Call) and (call_name(c) or "").split(".")[-1] in raising]
+            return [c for c in ast.walk(node) if isinstance(c, ast.Call) and (
+                (call_name(c) or "").split(".")[-1] in raising
+                or not isinstance(c.func, (ast.Name, ast.Attribute)) and any(isinstance(y, ast.Name) and y.id in raising for y in ast.walk(c.func)))]
         first = next((k for k, st in enumerate(stmts_) if mutates(st)), None)
         calls_ = [c for st in stmts_ for c in may_refuse(st)]
         # the method's own refusals: `raise` statements outside exception handlers (a handler that re-raises is translating an error)
@@ -748,8 +809,8 @@ def validation_before_mutation(ctx, rel, rule, raising, method_names=("set_struc
         # calls in statements after the first mutation; an augmented assignment evaluates its own right side before it changes the target
         late = [c for st in stmts_[first + 1:] for c in may_refuse(st)]
         late += [r for st in stmts_[first + 1:] for r in own_raises(st)]
-        if mutates(stmts_[first]) is True:
-            late += [c for c in may_refuse(stmts_[first]) if not isinstance(stmts_[first], ast.Assign)]
+        # (a refusing call inside the statement that makes the first change is evaluated before that change: operands, index and
+        # argument expressions come first)
         ctx.ob(rule, rel, q, f"{len(calls_)} refusing call(s) and {len(raises_)} own refusal(s), first in-place change at statement {first + 1}", not late,
                (f"`{ast.unparse(late[0])[:60]}` can refuse its input, but the object was already changed in place at line "
                 f"{stmts_[first].lineno}: after the error the previous content is gone (a damaged file is written later)" if late else ""), f.lineno)
